@@ -774,6 +774,10 @@ type FileParams struct {
 	// ProdDyn: the mapped producer maps over an array produced at run time
 	// (its forks are expanded while the pipestance runs).
 	ProdDyn bool `json:",omitempty"`
+	// Sparse (with ProdMap and Second): the forks of the mapped producer
+	// leave complementary file outputs null (even forks write f only, odd
+	// forks g only); the consumer binds both.
+	Sparse bool `json:",omitempty"`
 }
 
 func (d FileParams) String() string {
@@ -789,6 +793,9 @@ func (d FileParams) String() string {
 	}
 	if d.ProdDyn {
 		sec += " proddyn=true"
+	}
+	if d.Sparse {
+		sec += " sparse=true"
 	}
 	return fmt.Sprintf("files{out=%s proj=%q prod=%s prodwrap=%v conswrap=%v consmap=%v prodmap=%v late=%v vol=%q retain=%q topout=%v mode=%s size=%d phys=%v%s}",
 		d.Out, d.Proj, d.Prod, d.ProdWrap, d.ConsWrap, d.ConsMap, d.ProdMap, d.Late, d.Vol, d.Retain, d.TopOut, d.Mode, d.Size, d.Phys, sec)
@@ -891,8 +898,11 @@ func FileFlow(d FileParams) *Program {
 	}
 	cons := filerStage(p, consT)
 	secondOut := ""
+	if d.Sparse && !(d.Second && d.ProdMap && !d.ProdDyn && (d.Out == "f" || d.Out == "g") && d.Proj == "") {
+		return nil
+	}
 	if d.Second {
-		if d.Prod != "filew" || d.ProdMap || d.ConsMap {
+		if d.Prod != "filew" || (d.ProdMap && !d.Sparse) || d.ConsMap {
 			return nil
 		}
 		secondOut = "g"
@@ -904,6 +914,9 @@ func FileFlow(d FileParams) *Program {
 			if o.Name == secondOut {
 				secondT = o.T
 			}
+		}
+		if d.ProdMap {
+			secondT = ArrayOf(secondT)
 		}
 		cons = &Stage{Name: cons.Name + "_2", Fn: "FILER", Ins: append(append([]Param{}, cons.Ins...), Param{T: secondT, Name: "x2"}), Outs: cons.Outs}
 		p.Stages = append(p.Stages, cons)
@@ -919,6 +932,9 @@ func FileFlow(d FileParams) *Program {
 	if d.ProdMap {
 		prodCall.Map = true
 		prodCall.Binds = []Bind{{"n", SplitE(Lit(Arr(Int(size), Int(size+1))))}}
+		if d.Sparse {
+			prodCall.Binds = []Bind{{"n", SplitE(Lit(Arr(Int(200+size), Int(201+size), Int(202+size))))}}
+		}
 		if d.ProdDyn {
 			// GEN.arr has n elements, known only when GEN has run
 			top.Calls = append(top.Calls, &Call{Callee: "GEN", Binds: []Bind{{"n", Lit(Int(3))}}})
@@ -1122,6 +1138,19 @@ func FileFamily(maxDev int) []FileParams {
 								}
 							}
 						}
+					}
+				}
+			}
+		}
+	}
+	// a mapped producer whose forks leave complementary outputs null, its two
+	// file outputs bound by one consumer
+	for _, vol := range vols {
+		for _, mode := range modes {
+			for _, o := range []string{"f", "g"} {
+				for _, late := range bools {
+					for _, topo := range bools {
+						out = append(out, FileParams{Out: o, Prod: "filew", ProdMap: true, Second: true, Sparse: true, Late: late, TopOut: topo, Vol: vol, Mode: mode, Size: 2})
 					}
 				}
 			}
